@@ -467,6 +467,47 @@ fn mpp_partial_claim_probe(a: &mut Vec<i128>) -> String {
 	format!("{} {}", held, fulfills)
 }
 
+/// raa_probe <awaiting_remote_revoke> <monitor_update_in_progress> <peer_disconnected> <secret_matches>
+/// Two real nodes; node 0 has sent a commitment_signed for a new HTLC and node 1 answers with its genuine
+/// revoke_and_ack. Before node 0's channel processes it, the probe overwrites the three channel-state flags and,
+/// if secret_matches = 0, replaces the per-commitment secret by another valid key. Output: 1 if the real
+/// `FundedChannel::revoke_and_ack` accepted the message.
+fn raa_probe(a: &mut Vec<i128>) -> String {
+	use lightning::ln::channelmanager::PaymentId;
+	use lightning::ln::msgs::ChannelMessageHandler;
+	use lightning::ln::outbound_payment::RecipientOnionFields;
+	let (awaiting, mon, disc, good) = (a[0] != 0, a[1] != 0, a[2] != 0, a[3] != 0);
+	let chanmon_cfgs = create_chanmon_cfgs(2);
+	let node_cfgs = create_node_cfgs(2, &chanmon_cfgs);
+	let node_chanmgrs = create_node_chanmgrs(2, &node_cfgs, &[None, None]);
+	let nodes = create_network(2, &node_cfgs, &node_chanmgrs);
+	let node_a_id = nodes[0].node.get_our_node_id();
+	let node_b_id = nodes[1].node.get_our_node_id();
+	let chan_id = create_announced_chan_between_nodes(&nodes, 0, 1).2;
+	send_payment(&nodes[0], &[&nodes[1]], 1_000_000);
+	let (route, payment_hash, _, payment_secret) = lightning::get_route_and_payment_hash!(nodes[0], nodes[1], 1_000_000);
+	let onion = RecipientOnionFields::secret_only(payment_secret, 1_000_000);
+	nodes[0].node.send_payment_with_route(route, payment_hash, onion, PaymentId(payment_hash.0)).unwrap();
+	check_added_monitors(&nodes[0], 1);
+	let mut events = nodes[0].node.get_and_clear_pending_msg_events();
+	let payment_event = SendEvent::from_event(events.remove(0));
+	nodes[1].node.handle_update_add_htlc(node_a_id, &payment_event.msgs[0]);
+	nodes[1].node.handle_commitment_signed_batch_test(node_a_id, &payment_event.commitment_msg);
+	check_added_monitors(&nodes[1], 1);
+	let (mut bs_raa, _cs) = get_revoke_commit_msgs(&nodes[1], &node_a_id);
+	if !good {
+		bs_raa.per_commitment_secret = [42; 32];
+	}
+	let r = lightning::ln::channelmanager::verif_hooks::revoke_and_ack_probe(
+		nodes[0].node, &node_b_id, &chan_id, &bs_raa, awaiting, mon, disc,
+	);
+	core::mem::forget(nodes);
+	match r {
+		Some(ok) => format!("{}", ok as u8),
+		None => "error channel not found".to_string(),
+	}
+}
+
 fn main() {
 	if std::env::var("ORACLE_DEBUG").is_err() { std::panic::set_hook(Box::new(|_| {})); }
 	let stdin = std::io::stdin();
@@ -491,6 +532,7 @@ fn main() {
 			"holder_claim_probe" => holder_claim_probe(&mut args),
 			"claim_deadline_probe" => claim_deadline_probe(&mut args),
 			"mpp_partial_claim_probe" => mpp_partial_claim_probe(&mut args),
+			"raa_probe" => raa_probe(&mut args),
 			_ => format!("error unknown function {}", name),
 		}));
 		match r {
